@@ -417,7 +417,8 @@ def shards(tier: str) -> List[Dict[str, Any]]:
             out.append({"name": f"{name},ops=" + " ".join(OP_NAMES[o] for o in ops if o is not None)
                                 + (",orders=" + "/".join("sym" if o is None else "len-left" for o in orders) if orders else ""),
                         "params": {"template": name, "slots": k, "ops": ops, "orders": orders},
-                        "budget_s": budget, "per_path_timeout": 60})
+                        "budget_s": budget * 2 if (tier == "quick" and k == 3 and not name.startswith("unrecognised")) else budget,
+                        "per_path_timeout": 60})
     weight = {"own3": 0, "chain": 1, "constrained_primitive": 1, "reversed_primitive_chain": 1}
     out.sort(key=lambda shard: weight.get(shard["params"]["template"], 2))  # the long ones start first
     return out
